@@ -212,6 +212,10 @@ func VH_C20_Named(p []int) {
 		root = And().Push(Or().Push(And().SetMutex().Push(Cond("k", Ne, List().Push(Or().Push("z"))))))
 	case 5:
 		root = List().Push(And().SetFold(true).Push(Or().SetSymbol("|").Push("p", "q")), Not().Push(And().Push("r")))
+	case 6: // a lone NOT inside a redundant wrapper's single-child chain
+		root = And().Push("lead", Or().SetParen(pb()).Push(Not().SetParen(pb()).Push(And().SetParen(pb()).Push(Cond("a", Eq, "1"), Cond("b", Ne, "2")))), "tail")
+	case 7: // wrapper chains of length three in the middle of a parent
+		root = Or().Push("l", And().Push(Or().Push(And().Push("x", "y"))), Not().Push(Or().Push(Not().Push("z"))), "r")
 	}
 	var nodes []Stack
 	vhCollect(root, &nodes)
